@@ -45,6 +45,8 @@ META_SPELLINGS = [
     "<meta http-equiv='Content-Type' content='text/html; charset=%s'>",
     '<META HTTP-EQUIV="content-type" CONTENT="text/html;  charset=%s">',
     '<meta content="text/html; charset=%s" http-equiv="Content-Type">',
+    '<META HTTP-EQUIV="Content-Type" CONTENT="text/html; CHARSET=%s">',
+    '<meta http-equiv="Content-Type" content="text/html; Charset=%s" />',
     '<meta http-equiv=Content-Type content=text/html;charset=%s>',
     '<meta id="m" http-equiv = "Content-Type" lang="en" content = "text/html; charset = %s" data-x="1">',
     '<!-- <meta http-equiv="Content-Type" content="text/html; charset=koi8-r"> --><meta http-equiv="Content-Type" content="text/html; charset=%s">',
@@ -87,7 +89,7 @@ def _case(args):
     n = 0
     d = tempfile.mkdtemp(prefix="c17_")
     try:
-        for variant in range(5):
+        for variant in range(9):
             doc = build_doc(rec, rnd, variant)
             enc = rec["enc"]
             try:
